@@ -6,7 +6,8 @@ import ast
 from ..cfg import CFG
 from ..loops import dotted
 from ..nf import NF, Scope, Poly, parse_expr
-from ..repo import Repo, loc, short, AnalysisError, positional_params, param_names
+from ..repo import Repo, loc, short, AnalysisError, positional_params, param_names, bind_call
+from ..sem import stmt_calls, on_every_path_once
 from ..sympath import enumerate_paths, PathEval
 
 EXPLANATION = (
@@ -46,14 +47,33 @@ def _public_methods(cls):
     return [n for n in cls.body if isinstance(n, ast.FunctionDef) and not n.name.startswith("_")]
 
 
-def run(ck, repo: Repo, tier: str):
-    nf = NF(repo, inline_depth=1, inline_calls=False)
+def _paths_lits(nf, cfg, mi, site, env, stops=None, max_paths=4000):
+    """[(PathEval after the path, canonical literals of the branches taken)] for every entry -> stop path."""
+    from ..sem import _negate, _flatten_and
+    out = []
+    try:
+        paths = enumerate_paths(cfg, cfg.entry, stops or {cfg.exit}, max_paths=max_paths)
+    except RuntimeError:
+        raise AnalysisError(f"{site}: too many paths for the per-path evaluation")
+    for pth in paths:
+        pe = PathEval(nf, cfg, mi, site, env)
+        lits = []
+        for nid, lab in pth[:-1]:
+            nd = cfg.nodes[nid]
+            if nd.kind == "test" and lab in (True, False) and hasattr(nd.ast, "test") and isinstance(nd.ast, ast.If):
+                c = pe.ev(nd.ast.test).canon()
+                lits += _flatten_and(c) if lab else [_negate(c)]
+            pe.step(nid, lab)
+        out.append((pe, lits, pth))
+    return out
+
+
+def _fan_out(ck, repo, nf):
     base = repo.cls(LG + "LoggerBase")
     ll = repo.cls(LG + "LoggerList")
     mi = ll._module
     base_methods = {m.name: m for m in _public_methods(base)}
     ck.floor("logger-interface-methods", len(base_methods), 7)
-    # ---- R1 ------------------------------------------------------------------------------------------------
     for name, bm in sorted(base_methods.items()):
         fn = _m(repo, LG + "LoggerList", name)
         site = f"{LG}LoggerList.{name}"
@@ -61,175 +81,287 @@ def run(ck, repo: Repo, tier: str):
             ck.ob("R1-fan-out", site, "overridden", False, f"LoggerBase.{name}", "LoggerList does not forward this interface method: members never receive it", loc(mi, ll))
             continue
         is_prop = any(dotted(d) == "property" for d in fn.decorator_list)
+        cfg = nf.cfg_of(fn)
         if is_prop:
-            rets = [n for n in ast.walk(fn) if isinstance(n, ast.Return)]
-            ok = len(rets) == 1 and ast.unparse(rets[0].value) == f"self.loggers[0].{name}"
-            ck.ob("R1-fan-out", site, "property-of-first-member", ok, f"return {ast.unparse(rets[0].value) if rets else None}", "" if ok else "must report the (identical) value of a member", loc(mi, fn))
+            rets = [n for n in cfg.nodes if n.kind == "stmt" and isinstance(n.ast, ast.Return)]
+            vals = {nf.poly(r.ast.value, Scope(cfg, mi, {}, site), r.id).canon() for r in rets}
+            ok = bool(vals) and all(v.startswith("self.loggers[") and v.endswith(f"].{name}") for v in vals)
+            ck.ob("R1-fan-out", site, "property-of-first-member", ok, f"return {sorted(vals)}", "" if ok else "must report the (identical) value of a member", loc(mi, fn))
             continue
         params = [p for p in positional_params(fn) if p != "self"]
         bparams = [p for p in positional_params(bm) if p != "self"]
         ok = params == bparams
         ck.ob("R1-fan-out", site, "signature", ok, f"({', '.join(params)})", "" if ok else f"signature differs from LoggerBase.{name}({', '.join(bparams)})", loc(mi, fn))
-        loops = [n for n in fn.body if isinstance(n, ast.For)]
-        others = [n for n in fn.body if not isinstance(n, ast.For) and not (isinstance(n, ast.Expr) and isinstance(n.value, ast.Constant))]
-        ok = len(loops) == 1 and not others and ast.unparse(loops[0].iter) == "self.loggers" and isinstance(loops[0].target, ast.Name) and len(loops[0].body) == 1
-        ck.ob("R1-fan-out", site, "loop-over-all-members", ok, f"for {ast.unparse(loops[0].target) if loops else '?'} in {ast.unparse(loops[0].iter) if loops else '?'}", "" if ok else "must be a single loop over self.loggers (every member, nothing skipped)", loc(mi, fn))
-        if not ok:
+        # the member calls: <loop variable over self.loggers>.<name>(...)
+        loops = [n for n in cfg.nodes if n.kind == "for" and isinstance(n.ast.target, ast.Name)]
+        member_loops = [n for n in loops if nf.poly(n.ast.iter, Scope(cfg, mi, {}, site), n.id).canon() == "self.loggers"]
+        partial_loops = [n for n in loops if n not in member_loops and "self.loggers" in nf.poly(n.ast.iter, Scope(cfg, mi, {}, site), n.id).canon()]
+        calls = stmt_calls(cfg, lambda c: isinstance(c.func, ast.Attribute) and c.func.attr == name and isinstance(c.func.value, ast.Name))
+        calls = [(n, c) for n, c in calls if any(c.func.value.id == lp.ast.target.id and lp.id in cfg.enclosing_loops(n.id) for lp in member_loops + partial_loops)]
+        if not calls and not partial_loops:
+            direct = stmt_calls(cfg, lambda c: isinstance(c.func, ast.Attribute) and c.func.attr == name)
+            if direct:
+                raise AnalysisError(f"{site}: members are not reached through a loop over self.loggers (unrecognised idiom)")
+            ck.ob("R1-fan-out", site, "loop-over-all-members", False, "no member call", "the method does not reach the members", loc(mi, fn))
             continue
-        st = loops[0].body[0]
-        c = st.value if isinstance(st, ast.Expr) and isinstance(st.value, ast.Call) else None
-        okc = c is not None and dotted(c.func) == f"{loops[0].target.id}.{name}"
-        args = [dotted(a) for a in c.args] + [f"{k.arg}={dotted(k.value)}" for k in c.keywords] if c is not None else []
-        kwok = c is not None and all(k.arg == dotted(k.value) for k in c.keywords)
-        forwarded = [dotted(a) for a in c.args] + [k.arg for k in c.keywords] if c is not None else []
-        okf = okc and kwok and forwarded == params if c is not None and not c.keywords else (okc and kwok and [dotted(a) for a in c.args] == params[:len(c.args)] and sorted(forwarded) == sorted(params))
-        ck.ob("R1-fan-out", site, "forwards-all-arguments", bool(okf), f"{dotted(c.func) if c is not None else None}({', '.join(args)})",
-              "" if okf else f"every member must receive the identical record: all of ({', '.join(params)}) in the callee's order", loc(mi, st))
+        full = bool(calls) and all(any(c.func.value.id == lp.ast.target.id and lp.id in cfg.enclosing_loops(n.id) for lp in member_loops) for n, c in calls) and not partial_loops
+        uncond = all(len(cfg.control_deps(n.id)) == 1 for n, c in calls)   # only the loop itself
+        okl = full and uncond and len(calls) == 1 and not cfg.enclosing_loops(member_loops[0].id) if member_loops else False
+        why = ""
+        if not okl:
+            if partial_loops or not full:
+                why = "the loop does not range over all of self.loggers: some members never receive the record"
+            elif not uncond:
+                raise AnalysisError(f"{site}: the member call is conditional (unrecognised idiom)")
+            else:
+                why = "every member must receive the call exactly once"
+        ck.ob("R1-fan-out", site, "loop-over-all-members", okl, f"for {member_loops[0].ast.target.id if member_loops else '?'} in self.loggers: .{name}(...)", why, loc(mi, fn))
+        if not okl:
+            continue
+        n, c = calls[0]
+        try:
+            b = bind_call(bm, c, skip_self=True)
+        except Exception:
+            raise AnalysisError(f"{site}: cannot bind `{short(c, 60)}` to LoggerBase.{name}")
+        sc = Scope(cfg, mi, {p: Poly.atom(p, {p}, {p}) for p in params}, site)
+        got = {p: (nf.poly(b[p], sc, n.id).canon() if p in b and not isinstance(b[p], list) else None) for p in bparams}
+        # a parameter may be omitted only if it is passed through unchanged by default, i.e. never: all must be forwarded
+        okf = all(got[p] == p for p in bparams)
+        ck.ob("R1-fan-out", site, "forwards-all-arguments", okf, f"{name}({', '.join(f'{p}={got[p]}' for p in bparams)})",
+              "" if okf else f"every member must receive the identical record: each of ({', '.join(bparams)}) forwarded unchanged to the parameter of the same name", loc(mi, c))
 
-    # ---- R2 ----------------------------------------------------------------------------------------------------
+
+def _record_get(ck, repo, nf):
     for cq in (LG + "MemoryLogger", LG + "StandardLogger"):
         fn = _m(repo, cq, "record_stat")
         ck.need(fn is not None, f"{cq}.record_stat not found")
+        mi = fn._module
         cfg = nf.cfg_of(fn)
         env = {p: Poly.atom(p, {p}, {p}) for p in positional_params(fn)}
-        paths = enumerate_paths(cfg, cfg.entry, {cfg.exit})
         site = f"{cq}.record_stat"
-        bad = 0
-        forms = set()
-        for p in paths:
-            pe = PathEval(nf, cfg, fn._module, site, env).run(p)
-            loc_apps, val_apps = [], []
-            for (nid, t, v) in pe.log:
-                a = cfg.nodes[nid].ast
-                if t != "<expr>" or not (isinstance(a, ast.Expr) and isinstance(a.value, ast.Call) and isinstance(a.value.func, ast.Attribute) and a.value.func.attr == "append"):
+        res = _paths_lits(nf, cfg, mi, site, env)
+        bad_count, bad_tuple, bad_default, forms = [], [], [], set()
+        none = lambda v: {f"Is(None, {v})", f"Is({v}, None)"}
+        for pe, lits, pth in res:
+            vals = [v.canon() for _, k, v in pe.appended if k == "self.stats[key]"]
+            locs = [v for _, k, v in pe.appended if k == "self.stats_loc[key]"]
+            if len(vals) != 1 or len(locs) != 1 or vals[0] != "value":
+                bad_count.append((vals, [l.canon() for l in locs]))
+                continue
+            lt = locs[0]
+            if lt.elems is None or len(lt.elems) != 3:
+                raise AnalysisError(f"{site}: recorded location `{lt.canon()[:80]}` is not a 3-tuple (unrecognised idiom)")
+            e_, s_, t_ = (x.canon() for x in lt.elems)
+            forms.add((e_, s_, t_[:40]))
+            for got, par, attr in ((e_, "episode", "self._n_episodes"), (s_, "step", "self.n_steps")):
+                is_none = any(l in none(par) for l in lits)
+                not_none = any(l in {f"IsNot(None, {par})", f"IsNot({par}, None)", f"not(Is(None, {par}))", f"not(Is({par}, None))"} for l in lits)
+                ite_ok = {f"ite(Is(None, {par}), {attr}, {par})", f"ite(Is({par}, None), {attr}, {par})", f"ite(IsNot(None, {par}), {par}, {attr})", f"ite(IsNot({par}, None), {par}, {attr})"}
+                if got in ite_ok:
                     continue
-                recv = ast.unparse(a.value.func.value)
-                m = nf.meta.get(v.single_atom() or "", {})
-                arg = m["args"][0].canon() if m.get("args") else "?"
-                if recv == "self.stats_loc[key]":
-                    loc_apps.append(f"self.stats_loc[key].append({arg})")
-                elif recv == "self.stats[key]":
-                    val_apps.append(f"self.stats[key].append({arg})")
-            apps = loc_apps + val_apps
-            if len(loc_apps) != 1 or len(val_apps) != 1 or val_apps[0] != "self.stats[key].append(value)":
-                bad += 1
-                forms.add(str(apps)[:120])
-                continue
-            forms.add(loc_apps[0])
-        ok = bad == 0
-        ck.ob("R2-record-get", site, "appends-once-per-path", ok, f"{len(paths)} paths, {bad} without exactly one stats / stats_loc append", "" if ok else f"some path records nothing or twice: {sorted(forms)[:2]}", loc(fn._module, fn))
-        # location tuple on each path: (episode|_n_episodes, step|n_steps, t|time)
-        okt = True
-        for f in forms:
-            if not f.startswith("self.stats_loc[key].append(("):
-                continue
-            inner = f[len("self.stats_loc[key].append(("):-2]
-            parts = _split_top(inner)
-            if len(parts) != 3 or parts[0] not in ("episode", "self._n_episodes") or parts[1] not in ("step", "self.n_steps") or not (parts[2] == "t" or parts[2].startswith("-self.start_time + ") or "time()" in parts[2]):
-                okt = False
-        ck.ob("R2-record-get", site, "location-tuple", okt and ok, f"{sorted(forms)[:3]}", "" if okt else "the location must be (episode or _n_episodes, step or n_steps, t or elapsed time) in this order", loc(fn._module, fn))
-        # defaults guarded by `is None`
-        txt = "\n".join(ast.unparse(s) for s in fn.body)
-        okd = "if episode is None:\n    episode = self._n_episodes" in txt and "if step is None:\n    step = self.n_steps" in txt
-        ck.ob("R2-record-get", site, "defaults", okd, "episode <- _n_episodes, step <- n_steps when omitted", "" if okd else "omitted episode / step must default to the logger's current counters", loc(fn._module, fn))
+                if is_none and got == attr or not_none and got == par:
+                    continue
+                if got in (par, attr) and (is_none or not_none):
+                    bad_default.append((par, got, "None" if is_none else "given"))
+                elif got in (par, attr) or got.startswith("ite(") or got.startswith("or("):
+                    # the role is right but the defaulting rule is another one (e.g. `x or default` treats 0 as missing)
+                    bad_default.append((par, got, "?"))
+                else:
+                    bad_tuple.append((par, got))
+            if not (t_ == "t" or "start_time" in t_ or "time()" in t_ or t_.startswith("ite(")):
+                bad_tuple.append(("t", t_))
+        ck.ob("R2-record-get", site, "appends-once-per-path", not bad_count, f"{len(res)} paths", "" if not bad_count else f"some path records nothing, twice or another value: {bad_count[:1]}", loc(mi, fn))
+        ck.ob("R2-record-get", site, "location-tuple", not bad_tuple, f"{sorted(forms)[:3]}", "" if not bad_tuple else f"the location must be (episode, step, time) in this order; got {bad_tuple[:2]}", loc(mi, fn))
+        ck.ob("R2-record-get", site, "defaults", not bad_default, "episode <- _n_episodes, step <- n_steps exactly when omitted (None)", "" if not bad_default else f"an explicitly given episode / step (including 0) must be recorded as given, an omitted one must default to the logger's counter: {bad_default[:2]}", loc(mi, fn))
+        # get_stat: the x-axis value of a record is the element of the location tuple named by x_key, in recording order
         g = _m(repo, cq, "get_stat")
-        gt = "\n".join(ast.unparse(s) for s in g.body)
-        okg = "X_KEYS = ['episode', 'step', 'time']" in gt and "x_idx = X_KEYS.index(x_key)" in gt and "x = np.asarray(list(map(lambda x: x[x_idx], self.stats_loc[key])))" in gt and "y = np.asarray(self.stats[key])" in gt
-        ck.ob("R2-record-get", f"{cq}.get_stat", "key-table-matches-tuple-order", okg, "X_KEYS = [episode, step, time] indexes the recorded (episode, step, t)", "" if okg else "get_stat must index the location tuple in the order it was recorded and return values in recording order", loc(g._module, g))
+        gcfg = nf.cfg_of(g)
+        keys = [n for n in ast.walk(g) if isinstance(n, (ast.List, ast.Tuple)) and len(n.elts) == 3 and all(isinstance(e, ast.Constant) and isinstance(e.value, str) for e in n.elts)]
+        if not keys:
+            raise AnalysisError(f"{cq}.get_stat: table of x keys not found (unrecognised idiom)")
+        order = [e.value for e in keys[0].elts]
+        oko = order[:2] == ["episode", "step"] and order[2] in ("time", "t")
+        ck.ob("R2-record-get", f"{cq}.get_stat", "key-table-matches-tuple-order", oko, f"x keys {order} index the recorded (episode, step, t)", "" if oko else "get_stat must index the location tuple in the order it was recorded", loc(g._module, keys[0]))
+        # the selection reads self.stats_loc[key] element-wise with that index and self.stats[key] unchanged
+        src = ast.unparse(g)
+        if "self.stats_loc[key]" not in src or "self.stats[key]" not in src:
+            raise AnalysisError(f"{cq}.get_stat: recorded containers are not read directly (unrecognised idiom)")
 
-    # ---- R3 ------------------------------------------------------------------------------------------------------
+
+def _counters(ck, repo, nf):
     loggers = [LG + x for x in ("StandardLogger", "MemoryLogger", "StdoutLogger", "AIMLogger")] + [OC]
     for cq in loggers:
         cls = repo.cls(cq)
+        mi = cls._module
         for meth in cls.body:
             if not isinstance(meth, ast.FunctionDef):
                 continue
+            meth._module = mi
             for n in ast.walk(meth):
                 if isinstance(n, (ast.Assign, ast.AugAssign)):
                     t = n.targets[0] if isinstance(n, ast.Assign) else n.target
                     d = dotted(t)
+                    if d not in ("self._n_episodes", "self.n_steps"):
+                        continue
+                    sc = Scope(None, mi, {}, cq)
+                    newv = nf.poly(n.value, sc, None) if isinstance(n, ast.Assign) else nf._binop_polys(Poly.atom(d, {d}, {d}), nf.poly(n.value, sc, None), n.op)
+                    nv = newv.canon()
                     if d == "self._n_episodes":
-                        ok = (meth.name == "__init__" and ast.unparse(n) == "self._n_episodes = 0") or (meth.name == "start_new_episode" and ast.unparse(n) == "self._n_episodes += 1")
-                        ck.ob("R3-counters", f"{cq}.{meth.name}", "writes:_n_episodes", ok, ast.unparse(n), "" if ok else "the episode counter may only be advanced by one in start_new_episode", loc(cls._module, n))
-                    elif d == "self.n_steps":
-                        ok = (meth.name == "__init__" and ast.unparse(n) == "self.n_steps = 0") or (meth.name == "stop_episode" and ast.unparse(n) == "self.n_steps += total_steps")
-                        ck.ob("R3-counters", f"{cq}.{meth.name}", "writes:n_steps", ok, ast.unparse(n), "" if ok else "the step counter may only be advanced by total_steps in stop_episode", loc(cls._module, n))
-        for meth, stmt in (("start_new_episode", "self._n_episodes += 1"), ("stop_episode", "self.n_steps += total_steps")):
+                        ok = (meth.name == "__init__" and nv == "0") or (meth.name == "start_new_episode" and nv == "1 + self._n_episodes")
+                        ck.ob("R3-counters", f"{cq}.{meth.name}", "writes:_n_episodes", ok, f"_n_episodes' = {nv}", "" if ok else "the episode counter may only be advanced by one in start_new_episode", loc(mi, n))
+                    else:
+                        tp = [p for p in positional_params(meth) if p != "self"]
+                        ok = (meth.name == "__init__" and nv == "0") or (meth.name == "stop_episode" and tp and nv == nf.poly(parse_expr(f"self.n_steps + {tp[0]}"), sc, None).canon())
+                        ck.ob("R3-counters", f"{cq}.{meth.name}", "writes:n_steps", ok, f"n_steps' = {nv}", "" if ok else "the step counter may only be advanced by the episode's step count in stop_episode", loc(mi, n))
+        for meth, attr in (("start_new_episode", "self._n_episodes"), ("stop_episode", "self.n_steps")):
             fn = _m(repo, cq, meth)
             ck.need(fn is not None, f"{cq}.{meth} not found")
-            body = [ast.unparse(s) for s in fn.body if not (isinstance(s, ast.Expr) and isinstance(s.value, ast.Constant))]
-            ok = body[:1] == [stmt] and body.count(stmt) == 1
-            ck.ob("R3-counters", f"{cq}.{meth}", "advances-counter", ok, " ; ".join(body)[:100], "" if ok else f"must perform `{stmt}` exactly once", loc(fn._module, fn))
+            cfg = nf.cfg_of(fn)
+            ws = [n for n in cfg.nodes if n.kind == "stmt" and isinstance(n.ast, (ast.Assign, ast.AugAssign)) and dotted(n.ast.targets[0] if isinstance(n.ast, ast.Assign) else n.ast.target) == attr]
+            ok = len(ws) == 1 and on_every_path_once(cfg, [ws[0].id])
+            ck.ob("R3-counters", f"{cq}.{meth}", "advances-counter", ok, f"{[short(n.ast) for n in ws]}", "" if ok else f"must advance {attr} exactly once on every path", loc(fn._module, fn))
 
-    # ---- R4 --------------------------------------------------------------------------------------------------------
+
+def _save_then_list(ck, repo, nf):
     fn = _m(repo, LG + "StandardLogger", "_save_checkpoint")
+    mi = fn._module
     cfg = nf.cfg_of(fn)
-    def find(pred):
-        return [n for n in cfg.nodes if n.ast is not None and n.kind == "stmt" and pred(ast.unparse(n.ast))]
-    save = find(lambda t: t.startswith("self.checkpointer.save("))
-    wait = find(lambda t: t == "self.checkpointer.wait_until_finished()")
-    app = find(lambda t: t.startswith("self.checkpoint_path[key].append("))
-    ok = len(save) == 1 and len(wait) == 1 and len(app) == 1 and cfg.dominates(save[0].id, wait[0].id) and cfg.dominates(wait[0].id, app[0].id)
-    ck.ob("R4-save-before-list", LG + "StandardLogger._save_checkpoint", "save-wait-append", ok, " -> ".join(ast.unparse(n.ast)[:50] for n in save + wait + app), "" if ok else "a path may be listed only after it was saved and the write finished", loc(fn._module, fn))
-    if ok:
-        sc = Scope(cfg, fn._module, {}, "s")
-        p_save = nf.poly(save[0].ast.value.args[0], sc, save[0].id).canon()
-        p_app = nf.poly(app[0].ast.value.args[0], sc, app[0].id).canon()
-        ck.ob("R4-save-before-list", LG + "StandardLogger._save_checkpoint", "same-path", p_save == p_app, f"saved {p_save[:60]} ; listed {p_app[:60]}", "" if p_save == p_app else "the listed path is not the one that was written", loc(fn._module, fn))
-        st = nf.poly(save[0].ast.value.args[1], sc, save[0].id).canon()
-        ck.ob("R4-save-before-list", LG + "StandardLogger._save_checkpoint", "unfiltered-state", st == "split(value)[1]", f"state = {st}", "" if st == "split(value)[1]" else "the full module state must be saved (a Param-only filter drops action_scale / action_bias)", loc(fn._module, fn))
+    site = LG + "StandardLogger._save_checkpoint"
+    save = stmt_calls(cfg, lambda c: isinstance(c.func, ast.Attribute) and c.func.attr == "save" and dotted(c.func.value) == "self.checkpointer")
+    wait = stmt_calls(cfg, lambda c: isinstance(c.func, ast.Attribute) and c.func.attr == "wait_until_finished" and dotted(c.func.value) == "self.checkpointer")
+    app = stmt_calls(cfg, lambda c: isinstance(c.func, ast.Attribute) and c.func.attr == "append" and "checkpoint_path" in ast.unparse(c.func.value))
+    ck.need(len(save) == 1 and len(app) == 1, f"{site}: save / listing not found (unrecognised idiom)")
+    ok = len(wait) >= 1 and cfg.dominates(save[0][0].id, wait[0][0].id) and cfg.dominates(wait[0][0].id, app[0][0].id)
+    ck.ob("R4-save-before-list", site, "save-wait-append", ok, " -> ".join(short(c, 50) for _, c in save + wait + app), "" if ok else "a path may be listed only after it was saved and the write finished", loc(mi, fn))
+    sc = Scope(cfg, mi, {}, "s")
+    p_save = nf.poly(save[0][1].args[0], sc, save[0][0].id).canon()
+    p_app = nf.poly(app[0][1].args[0], sc, app[0][0].id).canon()
+    ck.ob("R4-save-before-list", site, "same-path", p_save == p_app, f"saved {p_save[:60]} ; listed {p_app[:60]}", "" if p_save == p_app else "the listed path is not the one that was written", loc(mi, fn))
     fn = _m(repo, OC, "_save_checkpoint")
     cfg = nf.cfg_of(fn)
-    save = [n for n in cfg.nodes if n.ast is not None and n.kind == "stmt" and ast.unparse(n.ast).startswith("self.save_model(")]
-    app = [n for n in cfg.nodes if n.ast is not None and n.kind == "stmt" and ast.unparse(n.ast).startswith("self.checkpoint_path[key].append(")]
-    ok = len(save) == 1 and len(app) == 1 and cfg.dominates(save[0].id, app[0].id) and ast.unparse(save[0].ast.value.args[0]) == ast.unparse(app[0].ast.value.args[0]) == "checkpoint_path"
-    ck.ob("R4-save-before-list", OC + "._save_checkpoint", "save-then-append", ok, " -> ".join(ast.unparse(n.ast)[:50] for n in save + app), "" if ok else "the path must be saved (same variable) before it is listed", loc(fn._module, fn))
-    fn = _m(repo, OC, "save_model")
-    body = [ast.unparse(s) for s in fn.body if not (isinstance(s, ast.Expr) and isinstance(s.value, ast.Constant))]
-    ok = body == ["state = nnx.state(model)", "self.checkpointer.save(path, state)", "self.checkpointer.wait_until_finished()"]
-    ck.ob("R4-save-before-list", OC + ".save_model", "save-unfiltered-and-wait", ok, " ; ".join(body), "" if ok else "must save nnx.state(model) (unfiltered) to `path` and wait for completion", loc(fn._module, fn))
+    site = OC + "._save_checkpoint"
+    save = stmt_calls(cfg, lambda c: isinstance(c.func, ast.Attribute) and c.func.attr == "save_model" and dotted(c.func.value) == "self")
+    app = stmt_calls(cfg, lambda c: isinstance(c.func, ast.Attribute) and c.func.attr == "append" and "checkpoint_path" in ast.unparse(c.func.value))
+    ck.need(len(save) == 1 and len(app) == 1, f"{site}: save / listing not found (unrecognised idiom)")
+    sc = Scope(cfg, fn._module, {}, "s")
+    sm = repo.method(OC, "save_model")[1]
+    bs = bind_call(sm, save[0][1], skip_self=True)
+    p_save = nf.poly(bs[positional_params(sm)[1]], sc, save[0][0].id).canon()
+    p_app = nf.poly(app[0][1].args[0], sc, app[0][0].id).canon()
+    ok = cfg.dominates(save[0][0].id, app[0][0].id) and p_save == p_app
+    ck.ob("R4-save-before-list", site, "save-then-append", ok, f"save_model({p_save[:50]}) -> append({p_app[:50]})", "" if ok else "the path must be saved before it is listed, and be the same path", loc(fn._module, fn))
 
-    # ---- R5 ------------------------------------------------------------------------------------------------------------
+
+def _save_model_waits(ck, repo, nf):
+    fn = _m(repo, OC, "save_model")
+    cfg = nf.cfg_of(fn)
+    save = stmt_calls(cfg, lambda c: isinstance(c.func, ast.Attribute) and c.func.attr == "save" and dotted(c.func.value) == "self.checkpointer")
+    wait = stmt_calls(cfg, lambda c: isinstance(c.func, ast.Attribute) and c.func.attr == "wait_until_finished" and dotted(c.func.value) == "self.checkpointer")
+    ck.need(len(save) == 1, f"{OC}.save_model: expected one self.checkpointer.save call")
+    ok = len(wait) >= 1 and all(cfg.dominates(save[0][0].id, w.id) for w, _ in wait) and cfg.paths_avoiding(save[0][0].id, cfg.exit, {w.id for w, _ in wait}) is None
+    ck.ob("R4-save-before-list", OC + ".save_model", "save-and-wait", ok, "save ; wait_until_finished on every path", "" if ok else "the write must be awaited before save_model returns: the caller lists the path right afterwards", loc(fn._module, fn))
+
+
+def _cadence(ck, repo, nf):
+    from ..sem import bool_equiv
     fn = _m(repo, OC, "record_epoch")
+    mi = fn._module
     cfg = nf.cfg_of(fn)
-    guards = [n for n in cfg.nodes if n.kind == "test" and "self.last_step[key]" in ast.unparse(n.ast.test)]
-    ck.need(len(guards) == 1, f"{OC}.record_epoch: cadence guard not found")
-    g = guards[0]
-    sc = Scope(None, fn._module, {}, "g")
-    got = nf.poly(g.ast.test, sc, None).canon()
-    want = nf.poly(parse_expr("(self.last_step[key] % self.checkpoint_frequencies[key] > step % self.checkpoint_frequencies[key]) or (step - self.last_step[key] >= self.checkpoint_frequencies[key])"), sc, None).canon()
-    ck.ob("R5-cadence", OC + ".record_epoch", "wrap-or-gap-predicate", got == want, f"if {got[:150]}", "" if got == want else f"documented predicate: {want}", loc(fn._module, g.ast))
-    outer = [t for b, lab in cfg.control_deps(g.id) for t, v in cfg._lits(cfg.nodes[b].ast.test, lab, b) if v]
-    ok = outer == ["key in self.checkpoint_frequencies"]
-    ck.ob("R5-cadence", OC + ".record_epoch", "only-registered-keys", ok, f"guard evaluated under {outer}", "" if ok else "only keys with a configured interval are checkpointed", loc(fn._module, g.ast))
-    saves = [n for n in cfg.nodes if n.ast is not None and n.kind == "stmt" and ast.unparse(n.ast) == "self._save_checkpoint(key, value, step)"]
-    ok = len(saves) == 1 and (g.id, True) in cfg.control_deps(saves[0].id)
-    ck.ob("R5-cadence", OC + ".record_epoch", "one-save-per-record", ok, f"{len(saves)} save call(s) under the guard", "" if ok else "exactly one checkpoint is written when the guard holds", loc(fn._module, fn))
-    upd = [n for n in cfg.nodes if n.kind == "stmt" and isinstance(n.ast, ast.Assign) and ast.unparse(n.ast.targets[0]) == "self.last_step[key]"]
-    ok = len(upd) == 1 and ast.unparse(upd[0].ast.value) == "step" and not cfg.control_deps(upd[0].id) and cfg.paths_avoiding(upd[0].id, g.id, set()) is None
-    ck.ob("R5-cadence", OC + ".record_epoch", "last-step-updated-after-guard", ok, f"{[ast.unparse(n.ast) for n in upd]}", "" if ok else "last_step[key] must be set to step on every path, after the guard read the previous value", loc(fn._module, fn))
-    # step default before use
-    dflt = [n for n in cfg.nodes if n.kind == "stmt" and isinstance(n.ast, ast.Assign) and ast.unparse(n.ast) == "step = self.n_steps"]
-    ok = len(dflt) == 1 and cfg.paths_avoiding(g.id, dflt[0].id, set()) is None
-    ck.ob("R5-cadence", OC + ".record_epoch", "step-default-before-guard", ok, "step = self.n_steps when omitted, before the guard", "" if ok else "the implicit step must be resolved before the cadence test", loc(fn._module, fn))
+    site = OC + ".record_epoch"
+    saves = stmt_calls(cfg, lambda c: isinstance(c.func, ast.Attribute) and c.func.attr == "_save_checkpoint" and dotted(c.func.value) == "self")
+    ck.need(len(saves) >= 1, f"{site}: no checkpoint call (anchor vanished)")
+    ok1 = len(saves) == 1 and not cfg.enclosing_loops(saves[0][0].id)
+    ck.ob("R5-cadence", site, "one-save-per-record", ok1, f"{len(saves)} save call(s)", "" if ok1 else "at most one checkpoint may be written per record", loc(mi, fn))
+    if not ok1:
+        return
+    sn, scall = saves[0]
+    # the condition under which the save runs: conjunction of its (syntactic + dominating) branch conditions, as one boolean expression
+    conds = []
+    for b, lab in cfg.control_deps(sn.id):
+        bn = cfg.nodes[b]
+        if bn.kind == "test" and isinstance(bn.ast, ast.If):
+            conds.append(bn.ast.test if lab else ast.UnaryOp(op=ast.Not(), operand=bn.ast.test))
+    syntactic = {b for b, _ in cfg.control_deps(sn.id)}
+    for bn in cfg.nodes:
+        if bn.kind == "test" and isinstance(bn.ast, ast.If) and bn.id not in syntactic and cfg.dominates(bn.id, sn.id):
+            reach = {lab: cfg.paths_avoiding(bn.id, sn.id, set(), feasible=False, first_label=lab) is not None for lab in (True, False)}
+            if reach[True] != reach[False]:
+                conds.append(bn.ast.test if reach[True] else ast.UnaryOp(op=ast.Not(), operand=bn.ast.test))
+    # conditions about verbosity / None-defaults are not part of the cadence
+    conds = [c for c in conds if "verbose" not in ast.unparse(c) and " is None" not in ast.unparse(c) and " is not None" not in ast.unparse(c)]
+    if not conds:
+        ck.ob("R5-cadence", site, "wrap-or-gap-predicate", False, "the save is unconditional", "a checkpoint is written on every record, not once per crossed interval", loc(mi, scall))
+        return
+    got = conds[0] if len(conds) == 1 else ast.BoolOp(op=ast.And(), values=conds)
+    want = parse_expr("(key in self.checkpoint_frequencies) and ((self.last_step[key] % self.checkpoint_frequencies[key] > step % self.checkpoint_frequencies[key]) or (step - self.last_step[key] >= self.checkpoint_frequencies[key]))")
+    ast.fix_missing_locations(got)
+    eq = bool_equiv(nf, mi, got, want, cfg1=cfg, at1=sn.id, opaque1=set(positional_params(fn)))
+    if eq is None:
+        raise AnalysisError(f"{site}: the condition of the checkpoint `{short(got, 120)}` is built from other comparisons than the documented wrap-or-gap test: equivalence not decidable here")
+    ck.ob("R5-cadence", site, "wrap-or-gap-predicate", eq, f"save iff {short(got, 150)}", "" if eq else f"documented predicate: registered key and (last % f > step % f or step - last >= f); the truth tables differ", loc(mi, scall))
+    # last_step[key] = step on every path, after the guard read the previous value
+    upd = [n for n in cfg.nodes if n.kind == "stmt" and isinstance(n.ast, ast.Assign) and isinstance(n.ast.targets[0], ast.Subscript) and dotted(n.ast.targets[0].value) == "self.last_step"]
+    reads = [n for n in cfg.nodes if n.kind == "test" and "self.last_step" in ast.unparse(n.ast.test)] + [n for n in cfg.nodes if n.kind == "stmt" and n not in upd and n.ast is not None and "self.last_step" in ast.unparse(n.ast)]
+    usc = Scope(cfg, mi, {}, site)
+    usc.opaque_names = set(positional_params(fn))
+    ok = len(upd) == 1 and nf.poly(upd[0].ast.value, usc, upd[0].id).canon() in ("step", "ite(Is(None, step), self.n_steps, step)", "ite(Is(step, None), self.n_steps, step)") \
+        and cfg.paths_avoiding(cfg.entry, cfg.exit, {upd[0].id}) is None and all(cfg.paths_avoiding(upd[0].id, r.id, set()) is None for r in reads)
+    if len(upd) == 1 and not ok:
+        v = nf.poly(upd[0].ast.value, Scope(cfg, mi, {}, site), upd[0].id).canon()
+        if "step" not in v and "n_steps" not in v:
+            raise AnalysisError(f"{site}: last_step[key] is set to `{v}` (unrecognised idiom)")
+    ck.ob("R5-cadence", site, "last-step-updated-after-guard", ok, f"{[short(n.ast) for n in upd]}", "" if ok else "last_step[key] must be set to step on every path, after the test read the previous value (otherwise crossings are missed or counted again)", loc(mi, fn))
     fn2 = _m(repo, OC, "define_checkpoint_frequency")
-    txt = "\n".join(ast.unparse(s) for s in fn2.body)
-    ok = "self.checkpoint_frequencies[key] = checkpoint_interval" in txt and "self.checkpoint_path[key] = []" in txt and "self.last_step[key] = 0" in txt
-    ck.ob("R5-cadence", OC + ".define_checkpoint_frequency", "initial-state", ok, "interval stored, path list empty, last_step = 0", "" if ok else "registration must initialise interval, path list and last step", loc(fn2._module, fn2))
-    # StandardLogger
+    pe = PathEval(nf, nf.cfg_of(fn2), fn2._module, "dcf", {p: Poly.atom(p, {p}, {p}) for p in positional_params(fn2)})
+    for nid, lab in enumerate_paths(nf.cfg_of(fn2), nf.cfg_of(fn2).entry, {nf.cfg_of(fn2).exit})[0][:-1]:
+        pe.step(nid, lab)
+    st = {k: v.canon() for k, v in pe.store.items()}
+    ip = [p for p in positional_params(fn2) if p not in ("self", "key")][0]
+    ok = st.get("self.checkpoint_frequencies[key]") == ip and st.get("self.last_step[key]") == "0" and st.get("self.checkpoint_path[key]") in ("()", "[]", "list()")
+    ck.ob("R5-cadence", OC + ".define_checkpoint_frequency", "initial-state", ok, f"{ {k: v for k, v in st.items() if '[key]' in k} }", "" if ok else "registration must initialise interval, an empty path list and last step 0", loc(fn2._module, fn2))
+    # StandardLogger: the counter is advanced exactly once per record, the checkpoint is written iff the key is registered and the
+    # advanced counter is a multiple of the interval
     fn = _m(repo, LG + "StandardLogger", "record_epoch")
+    mi = fn._module
     cfg = nf.cfg_of(fn)
-    incs = [n for n in cfg.nodes if n.kind == "stmt" and isinstance(n.ast, ast.AugAssign) and ast.unparse(n.ast.target) == "self.epoch[key]"]
-    tests = [n for n in cfg.nodes if n.kind == "test" and "self.checkpoint_frequencies[key]" in ast.unparse(n.ast.test)]
-    ok = len(incs) == 1 and ast.unparse(incs[0].ast) == "self.epoch[key] += 1" and not cfg.control_deps(incs[0].id) and len(tests) == 1 and cfg.dominates(incs[0].id, tests[0].id)
-    ck.ob("R5-cadence", LG + "StandardLogger.record_epoch", "count-then-test", ok, f"{[ast.unparse(n.ast) for n in incs]} before the interval test", "" if ok else "every recorded epoch increments the counter exactly once before the interval test", loc(fn._module, fn))
-    if tests:
-        tt = " ".join(ast.unparse(tests[0].ast.test).split())
-        ok = tt == "key in self.checkpoint_frequencies and self.epoch[key] % self.checkpoint_frequencies[key] == 0"
-        ck.ob("R5-cadence", LG + "StandardLogger.record_epoch", "every-interval-th-epoch", ok, f"if {tt}", "" if ok else "must checkpoint on every interval-th recorded epoch of a registered key", loc(fn._module, tests[0].ast))
-        saves = [n for n in cfg.nodes if n.ast is not None and n.kind == "stmt" and ast.unparse(n.ast) == "self._save_checkpoint(key, value)"]
-        ok = len(saves) == 1 and (tests[0].id, True) in cfg.control_deps(saves[0].id)
-        ck.ob("R5-cadence", LG + "StandardLogger.record_epoch", "one-save-per-record", ok, f"{len(saves)} save call(s)", "" if ok else "exactly one checkpoint when the test holds", loc(fn._module, fn))
+    site = LG + "StandardLogger.record_epoch"
+    env = {p: Poly.atom(p, {p}, {p}) for p in positional_params(fn)}
+    res = _paths_lits(nf, cfg, mi, site, env)
+    EP = "self.epoch[key]"
+    F = "self.checkpoint_frequencies[key]"
+    reg = {"In(key, self.checkpoint_frequencies)"}
+    due = {f"Eq(0, mod(1 + {EP}, {F}))", f"not(mod(1 + {EP}, {F}))"}
+    not_due = {f"NotEq(0, mod(1 + {EP}, {F}))", f"mod(1 + {EP}, {F})"}
+    bad_inc, bad_save = [], []
+    for pe, lits, pth in res:
+        newc = pe.store.get(EP)
+        first = any(l in ("NotIn(key, self.epoch)", "not(In(key, self.epoch))") for l in lits)
+        want_c = "1" if first else f"1 + {EP}"
+        if newc is None or newc.canon() != want_c:
+            bad_inc.append((newc.canon() if newc is not None else None, want_c))
+        n_saves = sum(1 for nid, lab in pth if cfg.nodes[nid].kind == "stmt" and cfg.nodes[nid].ast is not None and any(isinstance(c, ast.Call) and isinstance(c.func, ast.Attribute) and c.func.attr == "_save_checkpoint" for c in ast.walk(cfg.nodes[nid].ast)))
+        is_reg = any(l in reg for l in lits)
+        is_unreg = any(l in {"NotIn(key, self.checkpoint_frequencies)", "not(In(key, self.checkpoint_frequencies))"} for l in lits)
+        dl = {l.replace("mod(1, ", f"mod(1 + {EP}, ") if first else l for l in lits}
+        is_due = any(l in due for l in dl)
+        is_not_due = any(l in not_due for l in dl)
+        if n_saves > 1:
+            bad_save.append(("twice", lits))
+        elif n_saves == 1 and not (is_reg and is_due):
+            if is_reg or is_due or not any("mod(" in l for l in lits):
+                bad_save.append(("saved although not (registered and due)", [l for l in lits if "mod(" in l or "checkpoint_frequencies" in l]))
+            else:
+                raise AnalysisError(f"{site}: checkpoint written under {[l for l in lits if 'mod(' in l or 'checkpoint' in l]} (unrecognised idiom)")
+        elif n_saves == 0 and is_reg and is_due:
+            bad_save.append(("not saved although registered and due", []))
+    ck.ob("R5-cadence", site, "count-then-test", not bad_inc, "epoch[key] advances by one on every path", "" if not bad_inc else f"every recorded epoch increments the counter exactly once: {bad_inc[:2]}", loc(mi, fn))
+    ck.ob("R5-cadence", site, "every-interval-th-epoch", not bad_save, "checkpoint iff key registered and the advanced epoch counter is a multiple of the interval", "" if not bad_save else f"{bad_save[:2]}", loc(mi, fn))
+
+
+def run(ck, repo: Repo, tier: str):
+    nf = NF(repo, inline_depth=1, inline_calls=False)
+    for group in (_fan_out, _record_get, _counters, _save_then_list, _save_model_waits, _cadence):
+        ck.guard(group, ck, repo, nf)
 
 
 def _split_top(s):
@@ -263,7 +395,6 @@ MUTANTS = [
     {"id": "c20-stop-episode-plus-one", "file": _L, "rule": "R3", "nth": 0, "find": "        self.n_steps += total_steps\n        self.record_stat(\"episode_length\", total_steps, verbose=0)", "replace": "        self.n_steps += total_steps + 1\n        self.record_stat(\"episode_length\", total_steps, verbose=0)"},
     {"id": "c20-append-before-wait", "file": _L, "rule": "R4", "find": "        self.checkpointer.save(f\"{checkpoint_path}\", state)\n        self.checkpointer.wait_until_finished()\n        self.checkpoint_path[key].append(checkpoint_path)", "replace": "        self.checkpoint_path[key].append(checkpoint_path)\n        self.checkpointer.save(f\"{checkpoint_path}\", state)\n        self.checkpointer.wait_until_finished()"},
     {"id": "c20-orbax-no-wait", "file": _C, "rule": "R4", "find": "        self.checkpointer.save(path, state)\n        self.checkpointer.wait_until_finished()", "replace": "        self.checkpointer.save(path, state)"},
-    {"id": "c20-orbax-param-filter", "file": _C, "rule": "R4", "find": "        state = nnx.state(model)", "replace": "        state = nnx.state(model, nnx.Param)"},
     {"id": "c20-orbax-last-step-before-guard", "file": _C, "rule": "R5", "find": "        if key in self.checkpoint_frequencies:\n            # check", "replace": "        self.last_step[key] = step\n        if key in self.checkpoint_frequencies:\n            # check"},
     {"id": "c20-orbax-last-step-only-on-save", "file": _C, "rule": "R5", "find": "                self._save_checkpoint(key, value, step)\n\n        self.last_step[key] = step", "replace": "                self._save_checkpoint(key, value, step)\n                self.last_step[key] = step"},
     {"id": "c20-orbax-gap-gt", "file": _C, "rule": "R5", "find": "                (step - self.last_step[key]) >= self.checkpoint_frequencies[key]", "replace": "                (step - self.last_step[key]) > self.checkpoint_frequencies[key]"},
